@@ -24,6 +24,9 @@ CLAIMS = {
     "C11": ("spec/AggOps.tla, Aggregator.tla, MC_C11.tla, TraceAggregator.tla",
             "TLC checks C11_Tests (NAME scan, EXPECTFAIL, add_test signature by position) over argument orders and value coincidences; replayed behaviours compare the function directives carrying CMakeTest/CTest warnings; traces validated by TLC.",
             "keywords in upper case as CMake requires; NAME at most once", "4 C11"),
+    "C12": ("spec/Naming.tla, MC_C12.tla",
+            "TLC enumerates all run descriptors of the menu (36 000) and checks C12_Names, StartsWithPrefixSep, ExtDropped, Injective on the three-step naming machine; behaviours are replayed through the real cminx.main in a sandbox (cwd, HOME, settings file synthesised) and the first lines, the module directive and the first entry's doc compared with the ideal.",
+            "module doccomments at indentation 0; upper-case extensions not judged for dropping; quick tier replays a seeded sample", "4 C12"),
     "C13": ("spec/Walk.tla, MC_Walk.tla",
             "TLC explores the walk of cminx.document (file system as state, listing order as environment choice, output directory inside or outside the input tree) and checks C13_PagesAreProcessedFiles, C13_OneIndexPerProcessedDir, C13_OnePagePerFile, C13_NoDivergence against the ideal computed from the initial tree; every terminal behaviour is materialised and run through the real cminx.document with the listing orders imposed; compared: the exact set of files under the output directory (or the documented files in stdout mode).",
             "tree/pattern menus and bounds as in evidence; symlinks out of scope; string functions on names are inputs", "4 C13"),
